@@ -19,8 +19,6 @@ package rofs
 import (
 	"io/fs"
 	"reflect"
-
-	"github.com/avfs/avfs"
 )
 
 // Chdir changes the current working directory to the file,
@@ -195,7 +193,7 @@ func (f *RoFile) Sync() error {
 		return fs.ErrInvalid
 	}
 
-	return &fs.PathError{Op: "sync", Path: avfs.NotImplemented, Err: f.vfs.errPermDenied}
+	return &fs.PathError{Op: "sync", Path: f.baseFile.Name(), Err: f.vfs.errPermDenied}
 }
 
 // Truncate changes the size of the file.
